@@ -513,7 +513,19 @@ for _f, _id in ((pdom_register, "C03.PDOM-register"), (data_scope, "C03.DATA-sco
 
 dtab_scope.rule_id = "C03.DTAB-scope"
 
-RULES = [pdom_register, data_scope, dom_lhs_change, dtab_invalid, guard_bypass, can_recompute, dtab_scope, dom_invalid_last]
+def data_edge_ends(ctx, prog):
+    """The nodes created on a bind's rhs are raised above the bind's lhs-change node (not above some other node):
+    otherwise a stale rhs closure is popped before the change detector invalidates it. Same rule as
+    C02.DATA-edge-ends and C02.GUARD-every-rhs-node."""
+    from .c02 import data_edge_ends as f, guard_every_rhs_node as g
+    from .engine import run_relabelled
+    run_relabelled(ctx, prog, f, "C02.DATA-edge-ends", "C03.DATA-edge-ends")
+    g(ctx, prog, "C03.DATA-edge-ends")
+
+
+data_edge_ends.rule_id = "C03.DATA-edge-ends"
+
+RULES = [pdom_register, data_scope, dom_lhs_change, dtab_invalid, guard_bypass, can_recompute, dtab_scope, dom_invalid_last, data_edge_ends]
 
 # control signature of the bookkeeping effects this property depends on (rules/ctrlsig.py)
 from .ctrlsig import make_rule as _ctrl_rule  # noqa: E402
